@@ -199,6 +199,7 @@ fn catalog() -> i32 {
                     fresh_out: true,
                     role: String::new(),
                     src_age: 0,
+                    roots: vec![],
                 };
                 let out = sc.out();
                 let o = exec::run_invocation(&mut sc, &tree, &inv, &out);
